@@ -1198,13 +1198,13 @@ def run(chk, replay=None):
                        "the history has >= 2 calls outstanding at once, an out-of-order / ignored / corrupt / error response, a foreign-thread "
                        "micro-step, a burst, or a server reply; distinct by (op-kind sequence, event set, final line)")
     chk.cov["tier_adds"] = ("quick: permutations of <= 5 calls exhaustively, 600 sampled 3-thread interleavings, 1500/1500/2000/300 random "
-                            "histories per family, 400 RpcMessage encodings with one variant each" if tier == "quick" else
+                            "histories per family, 400 RpcMessage encodings with one variant each, 300 two-channel histories" if tier == "quick" else
                             "thorough: ALL permutations of the responses to <= 7 outstanding calls (5913 plain histories), ALL interleavings of "
                             "2 threads x 1 call, 3 threads x 1 call (1680) and 2 threads x 2 calls (924), 5000 sampled 4-thread interleavings, "
                             "60000 random orders for 6..8 calls, 60000 random thread programs, 80000 random server histories, 15000 histories "
                             "with a connection DOWN, bursts of up to 6 threads x 60 concurrent calls (100 repetitions), 20000 RpcMessage encodings "
                             "each with its canonical decoding and one reordered / duplicated / unknown-field / wrong-wire-type / bad-enum / truncated / "
-                            "corrupted / random variant")
+                            "corrupted / random variant, 15000 two-channel histories (real client channel + real RpcServer-made channel)")
     chk.cov["traces_validated_against_impl"] = len(cases) - len(corr_bad)
     chk.add_obligation("correspondence: extracted C19_Model.step == muduo::net::RpcChannel on every op of every case (events, id_, outstandings_, pending callbacks)", not corr_bad)
     chk.add_obligation("oracle: the property text on the implementation's own trace", not oracle_bad)
@@ -1270,7 +1270,8 @@ def run(chk, replay=None):
             if li is None:
                 return key == "no-output"
             return any(k == key for (_, k, _) in oracle(cc, li) + wire_oracle(cc, li))
-        small = shrink(c, pred)
+        # a drained two-channel history stops being drained when ops are removed: keep it whole
+        small = c if ("quiesce=1" in c.header.split() and key in ("not-exactly-once", "not-erased")) else shrink(c, pred)
         nfail = len(set(x[0].cid for x in oracle_bad if x[2] == key))
         p = chk.write_replay("oracle_%s_%s.case" % (key, c.cid), "# key=%s\n# %s\n" % (key, msg.replace("\n", "\n# ")) + small.text())
         chk.violation(p, "C19 fails on the implementation [key=%s]: %s (%d failing histories)" % (key, msg, nfail))
